@@ -56,8 +56,10 @@ def match_finding(findings, pid, signature):
             continue
         if f.get('signature') == signature:
             return f
-        g = f.get('signature_glob')
-        if g and fnmatch.fnmatchcase(signature, g):
+        globs = list(f.get('signature_globs', []))
+        if f.get('signature_glob'):
+            globs.append(f['signature_glob'])
+        if any(fnmatch.fnmatchcase(signature, g) for g in globs):
             return f
     return None
 
@@ -162,7 +164,8 @@ def main(argv):
         # committed regression corpus is replayed first by an extra shard
         corpus = sorted(glob.glob(os.path.join(ROOT, 'corpus', pid, '*.json')))
         if corpus:
-            specs = [{'corpus': corpus}] + specs
+            # one process per corpus case (cases of different languages cannot share a process)
+            specs = [{'corpus': [c]} for c in corpus] + specs
     timeout = getattr(mod, 'HARD_TIMEOUT', {}).get(a.tier, 3600 if a.tier == 'quick' else 6 * 3600)
     results = run_workers(pid, a.tier, seed, specs, outdir, timeout)
 
@@ -207,6 +210,7 @@ def main(argv):
 
     rc = 0
     known_hit = {}
+    known_groups = {}
     n_viol = 0
     lines = []
     for sig in sorted(viol_by_sig):
@@ -222,14 +226,18 @@ def main(argv):
                        'case': v.get('case')}, fh, indent=1, default=str)
         if f is not None:
             known_hit[sig] = counts_by_sig[sig]
-            lines.append('KNOWN-FINDING: property=%s %s count=%d witness=%s (%s)' % (
-                pid, sig, counts_by_sig[sig], os.path.relpath(rpath, ROOT), f.get('id', '')))
+            g = known_groups.setdefault(f.get('id', sig), {'n': 0, 'sigs': 0, 'eg': sig, 'witness': os.path.relpath(rpath, ROOT)})
+            g['n'] += counts_by_sig[sig]
+            g['sigs'] += 1
         else:
             n_viol += counts_by_sig[sig]
             rc = 1
             lines.append('VIOLATION property=%s replay=%s signature=%s count=%d detail=%s' % (
                 pid, rpath, sig, counts_by_sig[sig], canonical(v.get('detail'))[:600]))
 
+    for fid, g in sorted(known_groups.items()):
+        lines.append('KNOWN-FINDING: property=%s %s signatures=%d count=%d e.g. %s witness=%s' % (
+            pid, fid, g['sigs'], g['n'], g['eg'], g['witness']))
     if a.replay:
         for l in lines:
             print(l)
